@@ -7,6 +7,7 @@ From RecordUpdate Require Import RecordUpdate.
 Import ListNotations.
 From GMQ Require Import Broker.Model Proofs.BrokerFrames Proofs.BrokerReady Proofs.BrokerRestart.
 Open Scope N_scope.
+From GMQ Require Import Broker.gen.BrokerGen.
 
 (* a queue survives iff it is durable; it comes back under its name with its auto-delete flag, holding exactly its
    stored messages, owned by nobody, without consumers *)
@@ -53,3 +54,9 @@ Theorem C04_stored_messages_return_once_in_order :
     StronglySorted N.le (stored_of s qn).
 Proof. exact restart_messages. Qed.
 Print Assumptions C04_stored_messages_return_once_in_order.
+
+(* write-through: the metadata of a durable entity is in the store before the handler replies (no goroutine in the
+   write path of AppendQueue / AppendExchange / PersistBinding / DeleteQueue) - read off /repo on every run *)
+Theorem C09_generated_metadata_written_before_reply : metadata_written_before_reply = true.
+Proof. reflexivity. Qed.
+Print Assumptions C09_generated_metadata_written_before_reply.
